@@ -13,7 +13,7 @@ Driver ops of C14, part TextCost (served by `gmodel`). Every answer is the outco
       -> ok files=… entries=… slots=… names=… maxcount=… maxvec=… size=… convops=… | err InvalidData size=…
   c14.text.jacoco <cap> <ev>*     (event syntax of the C10 driver)
       -> ok files=… entries=… slots=… names=… maxvec=… <cost> | err <Kind> <cost> | alloc <cost> | diverge <cost>
-         <cost> = reads=… attrs=… dupcmp=… mapops=… alloc=… events=… attrcount=… bytes=…
+         <cost> = reads=… attrs=… mapops=… alloc=… events=… attrcount=… bytes=…
 The lcov and JaCoCo models build the branch vectors for real: the harness keeps branch numbers and
 cb/mb of the cases it sends here small (the allocation findings are replayed on the real code only).
 -/
@@ -193,7 +193,7 @@ def parseEvent (s : String) : Option Jacoco.XmlEvent :=
   | _ => none
 
 def jacocoCost (c : Jacoco.Cost) (evs : List Jacoco.XmlEvent) : String :=
-  s!"reads={c.reads} attrs={c.attrs} dupcmp={c.dupCmp} mapops={c.mapOps} alloc={c.alloc} " ++
+  s!"reads={c.reads} attrs={c.attrs} mapops={c.mapOps} alloc={c.alloc} " ++
   s!"events={evs.length} attrcount={Jacoco.attrCount evs} bytes={Jacoco.evsBytes evs}"
 
 def handleJacoco : List String → String
